@@ -271,44 +271,3 @@ Proof.
   - destruct (words_positions nW (WSlice a b c)) as [ps|] eqn:E; [|discriminate]. cbn in Hs. injection Hs as <-. eauto.
 Qed.
 
-(* ================================================================ the targeted states are stop points of the real cipher
-   (through the theorems of C05 / C06 about the impl-models of scared.aes / scared.des encrypt / decrypt) *)
-Theorem aes_targets_are_stop_points_pf Nk key inp : In Nk [4; 6; 8]%nat -> Aes.wf_key Nk key -> Aes.wf_block inp ->
-  let Nr := Nr_of Nk in
-  let S := Cipher_states Nk key inp in
-  let I := InvCipher_states Nk key inp in
-  Aes.encrypt_m key inp 0 3 = Some (nth 1 S [])
-  /\ Aes.encrypt_m key inp 1 0 = Some (nth 2 S [])
-  /\ Aes.encrypt_m key inp (Nr - 1) 3 = Some (nth (4 * Nr - 3) S [])
-  /\ Aes.encrypt_m key inp Nr 1 = Some (nth (4 * Nr - 1) S [])
-  /\ Aes.encrypt_m key inp Nr 3 = Some (last S [])
-  /\ Aes.decrypt_m key inp 0 0 = Some (nth 1 I [])
-  /\ Aes.decrypt_m key inp 0 3 = Some (nth 3 I [])
-  /\ Aes.decrypt_m key inp (Nr - 1) 2 = Some (nth (4 * Nr - 2) I [])
-  /\ Aes.decrypt_m key inp (Nr - 1) 3 = Some (nth (4 * Nr - 1) I [])
-  /\ Aes.decrypt_m key inp Nr 3 = Some (last I []).
-Proof.
-  intros HNk Hkey Hinp. cbv zeta.
-  assert (HNr : In (Nr_of Nk) [10; 12; 14]%nat) by (destruct HNk as [<-|[<-|[<-|[]]]]; cbn; auto).
-  destruct (enc_shape (Nr_of Nk) HNr (round_keys Nk key) inp) as (_ & _ & _ & _ & _ & _ & _ & El).
-  destruct (dec_shape (Nr_of Nk) HNr (round_keys Nk key) inp) as (_ & _ & _ & _ & _ & _ & _ & _ & Dl).
-  unfold Cipher_states, InvCipher_states. rewrite El, Dl.
-  rewrite !(encrypt_at_is_fips_pf Nk key inp HNk Hkey Hinp) by (destruct HNk as [<-|[<-|[<-|[]]]]; cbn; lia).
-  rewrite !(decrypt_at_is_fips_pf Nk key inp HNk Hkey Hinp) by (destruct HNk as [<-|[<-|[<-|[]]]]; cbn; lia).
-  unfold Cipher_states, InvCipher_states.
-  destruct HNk as [<-|[<-|[<-|[]]]]; repeat split; reflexivity.
-Qed.
-
-Theorem des_targets_are_stop_points_pf ns key inp r s : Des.is_block key -> Des.is_block inp -> (r <= 15)%nat -> (s <= 9)%nat ->
-  Des.des_cipher (match ns with NsEncrypt => false | NsDecrypt => true end) 0 r s key inp
-  = Some (des_state_at (des_rks ns (des_key_schedule key)) inp r s).
-Proof.
-  intros Hkey Hinp Hr Hs. pose proof Hkey as [Hl Hb].
-  destruct (des_at_is_fips_thm (match ns with NsEncrypt => false | NsDecrypt => true end) 0 r s key inp) as (ks & Hks & Hc);
-    try assumption.
-  - left. split; [left; exact Hl|exact Hb].
-  - unfold Des.n_passes. rewrite Hl. cbn. lia.
-  - rewrite Hc. f_equal. unfold schedules_of_key in Hks. rewrite Hl in Hks. cbn [Nat.eqb orb] in Hks.
-    change (8 / 8)%nat with 1%nat in Hks. rewrite (chunks1 key Hl) in Hks. injection Hks as <-.
-    destruct ns; reflexivity.
-Qed.
